@@ -32,6 +32,9 @@ func TestOne(t *testing.T) {
 		s := seed + uint64(i)
 		plan := p.Gen(NewTape(s))
 		plan.Seed = s
+		if os.Getenv("SIM_DEBUG") != "" {
+			plan.K.Debug = true
+		}
 		res := Execute(t, plan)
 		for _, v := range res.Violations {
 			sigs[v.Sig()]++
